@@ -55,7 +55,7 @@ def one_program(seed, i, tier, res, gfields=None):
     rng = random.Random("%s:C01:%d" % (seed, i))
     big = rng.random() < (0.3 if tier == "thorough" else 0.1)
     g = gen.ProgGen(rng, max_depth=rng.choice([5, 6, 8]) if big else rng.choice([3, 4, 5]), max_nodes=150 if big else 40,
-                    value_depth=rng.choice([1, 2, 3]), defer_p=0.3, extra_styles=("pre_created", "ctx_finish_inside"), reseed_p=0.03, reserved_field_p=0.1,
+                    value_depth=rng.choice([1, 2, 3]), defer_p=0.3, extra_styles=("pre_created", "ctx_finish_inside"), reseed_p=0.03, reserved_field_p=0.1, status_field_p=0.03,
                     msg_styles=gen.MSG_STYLES + ["stdlib"])
     prog = g.program()
     shape = "random"
